@@ -153,12 +153,16 @@ def model_check_trace(res, cfg, events, all_returned=True):
     return None
 
 
-def one_run(res, clients, calls, groups, rpg, seed, nins, gomaxprocs):
+def one_run(res, clients, calls, groups, rpg, seed, nins, gomaxprocs, bg=False):
     d = tempfile.mkdtemp(prefix="c12_", dir=os.path.join(BUILD, "tmp"))
     try:
         env = dict(os.environ, GOMAXPROCS=str(gomaxprocs))
+        if bg:
+            # an explicit transaction holds shared locks on a group's rows for 5-35 ms at a time: updates abort and are retried even
+            # when no other client's request is running
+            env["VERIF_C12_HOLDER"] = "1"
         try:
-            p = subprocess.run([HARNESS_BIN, "c12", "-", d, str(clients), str(calls), str(groups), str(rpg), str(seed), str(nins), "60"],
+            p = subprocess.run([HARNESS_BIN, "c12", "-", d, str(clients), str(calls), str(groups), str(rpg), str(seed), str(nins), "25" if bg else "60"],
                                capture_output=True, text=True, timeout=120, env=env, cwd=d)
             out = p.stdout
         except subprocess.TimeoutExpired as e:
@@ -167,7 +171,7 @@ def one_run(res, clients, calls, groups, rpg, seed, nins, gomaxprocs):
         lines = out.strip().split("\n")
         qtr = [l for l in lines if l.startswith("QTRACE ")]
         lines = [l for l in lines if not l.startswith("QTRACE ")]
-        cfg = "clients=%d calls=%d groups=%d rows/group=%d inserts=%d GOMAXPROCS=%d seed=%d" % (clients, calls, groups, rpg, nins, gomaxprocs, seed)
+        cfg = "clients=%d calls=%d groups=%d rows/group=%d inserts=%d GOMAXPROCS=%d seed=%d%s" % (clients, calls, groups, rpg, nins, gomaxprocs, seed, " + a background transaction holding shared row locks" if bg else "")
         if "DONE" not in lines:
             hung = [l for l in lines if l.endswith("HUNG") and l != "HUNG"]
             return cfg, "a call blocks forever (or the process died): %s" % (hung[:3] or lines[-3:])
@@ -178,7 +182,12 @@ def one_run(res, clients, calls, groups, rpg, seed, nins, gomaxprocs):
         else:
             res.broken.append("the harness printed no request-queue trace (hook H4)")
         calls_seen = {}
-        regs = {g: [] for g in range(groups)}
+        ncell = groups * rpg
+        def cells_of(dim, idx):
+            return [idx * rpg + c for c in range(rpg)] if dim == "g" else [r * rpg + idx for r in range(groups)]
+        regs = {k: [] for k in range(ncell)}          # one register per row
+        writer = {0: ("init", -1)}                     # written value -> (dim, idx) of the statement that wrote it
+        reads = []
         final_acct, final_ins = None, None
         for l in lines:
             if l.startswith("FINAL acct"):
@@ -196,18 +205,20 @@ def one_run(res, clients, calls, groups, rpg, seed, nins, gomaxprocs):
                 if kind == "W":
                     if result not in ("ok", "rows="):
                         return cfg, "update call got a result that is not its own: %s" % l
-                    regs[int(f[5])].append((inv, resp, "W", int(f[6])))
+                    dim, idx, u = f[5], int(f[6]), int(f[7])
+                    writer[u] = (dim, idx)
+                    for k in cells_of(dim, idx):
+                        regs[k].append((inv, resp, "W", u))
                 elif kind in ("R", "S"):
                     if not result.startswith("rows="):
                         return cfg, "read call got a result that is not its own: %s" % l
-                    g = int(f[5])
+                    dim, idx = f[5], int(f[6])
                     rows = [tuple(int(x) for x in r.split(":")) for r in result[5:].split(",") if r]
-                    if sorted(k for k, _ in rows) != list(range(g * rpg, (g + 1) * rpg)):
-                        return cfg, "read of group %d returned rows of the wrong group / missed rows: %s" % (g, l)
-                    vals = {v for _, v in rows}
-                    if len(vals) != 1:
-                        return cfg, "a multi-row update was seen partially (rows of group %d with different values): %s" % (g, l)
-                    regs[g].append((inv, resp, "R", vals.pop()))
+                    if sorted(k for k, _ in rows) != sorted(cells_of(dim, idx)):
+                        return cfg, "read of %s = %d returned rows of the wrong group / missed rows: %s" % (dim, idx, l)
+                    reads.append((dim, idx, rows, l))
+                    for k, v in rows:
+                        regs[k].append((inv, resp, "R", v))
                 elif kind == "I":
                     if result not in ("ok", "rows="):
                         return cfg, "insert call failed: %s" % l
@@ -216,21 +227,37 @@ def one_run(res, clients, calls, groups, rpg, seed, nins, gomaxprocs):
         want_ins = sorted(str(c * 100000 + s) for c in range(clients) for s in range(calls, calls + nins))
         if sorted(final_ins or []) != want_ins:
             return cfg, "inserted keys are not present exactly once: %d rows for %d inserts" % (len(final_ins or []), len(want_ins))
-        for g in range(groups):
-            fin = {int(e.split(":")[2]) for e in final_acct if int(e.split(":")[1]) == g}
-            if len(fin) != 1:
-                return cfg, "final table has group %d half updated: %s" % (g, sorted(fin))
-            ops = regs[g] + [(10**9, 10**9 + 1, "R", fin.pop())]
+        fin_rows = [(int(e.split(":")[0]), int(e.split(":")[2])) for e in final_acct]
+        if sorted(k for k, _ in fin_rows) != list(range(ncell)):
+            return cfg, "final table does not hold exactly the %d rows: %s" % (ncell, final_acct[:8])
+        final_reads = [("g", r, [(k, v) for k, v in fin_rows if k // rpg == r], "final table") for r in range(groups)] + \
+                      [("h", c2, [(k, v) for k, v in fin_rows if k % rpg == c2], "final table") for c2 in range(rpg)]
+        for dim, idx, rows, l in reads + final_reads:
+            own = set()
+            for k, v in rows:
+                if v not in writer:
+                    return cfg, "a read returned a value no statement wrote (row %d = %d): %s" % (k, v, l)
+                wd, wi = writer[v]
+                if wd != "init" and k not in cells_of(wd, wi):
+                    return cfg, "a read returned, for row %d, the value of a statement that does not cover that row (%d written by %s = %d): %s" % (k, v, wd, wi, l)
+                # statements that cover EVERY row of this read (same group; the initial load): the later one overwrites all rows at
+                # once, so two of them cannot both be visible in one atomic read
+                if wd == "init" or (wd == dim and wi == idx):
+                    own.add(v)
+            if len(own) > 1:
+                return cfg, "a multi-row update was seen partially: rows of %s = %d carry the values %s of different statements that each cover the whole group: %s" % (dim, idx, sorted(own), l)
+        for k in range(ncell):
+            ops = regs[k] + [(10**9, 10**9 + 1, "R", dict(fin_rows)[k])]
             if not (linearizable(ops, 0) if len(ops) <= 14 else linearizable_fast(ops, 0)):
-                return cfg, "the calls on row group %d admit no serial order consistent with real time (%d calls)" % (g, len(ops))
+                return cfg, "the calls touching row %d admit no serial order consistent with real time (%d calls)" % (k, len(ops))
         return cfg, None
     finally:
         shutil.rmtree(d, ignore_errors=True)
 
 
 def run(res, replay=None):
-    res.rule = ("N in {1,2,8,32,64} client goroutines (thorough: up to 200), GOMAXPROCS in {1,4,16}, each issuing 6-12 calls through SamehadaDB.ExecuteSQL: multi-row updates with unique values over 2-5 overlapping row groups, "
-                "index-path and scan-path reads of a group, then unique inserts; checked: one result per call of the call's own shape, all-or-nothing visibility of multi-row updates, per-group linearizability "
+    res.rule = ("N in {1,2,8,32,64} client goroutines (thorough: up to 200), GOMAXPROCS in {1,4,16}, each issuing 6-12 calls through SamehadaDB.ExecuteSQL: multi-row updates with unique values over the row groups and the column groups of a 2-5 x 2-4 grid of rows (a row-group statement and a column-group statement overlap in one row), "
+                "index-path and scan-path reads of a group, then unique inserts; checked: one result per call of the call's own shape, all-or-nothing visibility of multi-row updates (two statements that each cover the whole group read are never both visible; no value of a statement that does not cover the row), per-row linearizability "
                 "(exhaustive Wing-Gong search up to 14 calls per group, Gibbons-Korach zone test above that; the two are cross-checked on random histories at start) including the final table, inserts exactly once, no call hangs (60 s watchdog); non-trivial = distinct run with >= 8 clients")
     res.trusted = COMMON_TRUSTED + ["python linearizability search (checks/c12.py) — a search for a witness order, exhaustive per row group", "call timestamps are a global atomic counter read before the call and after it returned"]
     res.assumptions = ["the Go scheduler's behaviour is sampled, not enumerated; liveness holds only if every statement aborts finitely often (no-wait locking can livelock in principle)"]
@@ -273,7 +300,10 @@ def run(res, replay=None):
     for i in range(nruns):
         n = sizes[i % len(sizes)]
         gmp = [1, 4, 16][i % 3]
-        cfg, bad = one_run(res, n, rng.randrange(6, 13), rng.randrange(2, 6), rng.randrange(2, 5), rng.randrange(1, 10**6), 2, gmp)
+        bg = (i % 4 == 3)
+        if bg:
+            n = [1, 2, 1, 8][(i // 4) % 4]
+        cfg, bad = one_run(res, n, rng.randrange(6, 13) if not bg else rng.randrange(30, 60), rng.randrange(2, 6), rng.randrange(2, 5), rng.randrange(1, 10**6), 2, gmp, bg=bg)
         res.note_case(cfg, n >= 8)
         if len(res.samples) < 3:
             res.samples.append(cfg)
